@@ -7,7 +7,7 @@ from ..hworld import HWorld
 
 ID = "C02"
 LEVEL = "exploration"
-RUNS = {"quick": 4000, "thorough": 100000}
+RUNS = {"quick": 12000, "thorough": 200000}
 RULE = (
     "each run: same simulated worlds as C01 (seeded swarm configuration, 10-80 mutation events, direct and batched, "
     "committed and aborted batches, crash-reopen, prune on/off, lru-cache knob); after every state-changing event, on "
